@@ -74,6 +74,7 @@ class Run:
             sched.PENDING_SCHED[0] = s
             logger = sched.make_logger()
             fail = set(prog.get("fail", ()))
+            sched.FakeQueue.poison = frozenset(prog.get("poison", ()))
             snk = sched.FailingSink("s0", lambda text: text in fail) if fail else sched.TracingSink("s0")
             hid = logger.add(snk, enqueue=True, context=sched.FakeContext(start_method=prog.get("start_method", "fork")),
                              format="{message}",
@@ -138,6 +139,7 @@ class Run:
                     s.go(timeout=30.0)
             finally:
                 sched.CUR[0] = None
+            sched.FakeQueue.poison = frozenset()
             self.sched, self.sink, self.ops, self.stderr = s, snk, ops_log, err
         return self
 
